@@ -182,6 +182,7 @@ def queryToJson : Query → Json
   | .nowSeconds => Json.mkObj [("q", "now_seconds")]
   | .tokenBytes k n => Json.mkObj [("q", "token_bytes"), ("k", Json.num k), ("n", Json.num n)]
   | .builtinPem n => Json.mkObj [("q", "builtin_pem"), ("name", Json.str n)]
+  | .pemCanon p => Json.mkObj [("q", "pem_canon"), ("pem", bytesToJson p)]
 
 def jsonOutcomeOfJson (j : Json) : P JsonOutcome := do
   match fieldOpt j "ok" with
@@ -215,6 +216,7 @@ def answerOfJson : (q : Query) → Json → P (Answer q)
   | .nowSeconds, j => intField j "t"
   | .tokenBytes _ _, j => bytesField j "b"
   | .builtinPem _, j => bytesField j "b"
+  | .pemCanon _, j => optField (fun v => bytesOfJson v) j "b"
 
 def errToJson (e : Err) : Json :=
   match e.kind with
